@@ -249,6 +249,28 @@ def check_keys(ctx, facts, rule):
               [Cell(('ref', Cell(('key', 'svc'))) if f['name'] == 'service_name' else ('ref', Cell(('key', 'path'))) if f['name'] == 'path' else ('opaque', f['name']))
                for f in mma['variants'][0]['fields']])
         u = it2.deref_all(it2.run_body(mm[0], [('ref', Cell(md))]))
+        # the server's add / remove of a whole service: under which name is the key set filed, and which name is it removed by
+        srv = [b for b in facts.bodies.values() if b.crate == 'datacake_rpc' and b.kind == 'method' and b.name.endswith('::Server::add_service')]
+        rms = [b for b in facts.bodies.values() if b.crate == 'datacake_rpc' and b.kind == 'method' and b.name.endswith('::Server::remove_service')]
+        table_calls = []
+        if len(srv) == 1 and len(rms) == 1:
+            def srv_hook(interp, name, args, t, body):
+                if name.endswith('::RpcService::register_handlers') and args:
+                    interp.run_body(add[0], [args[0]], 1)
+                    return UNIT
+                if name.endswith('::ServerState::add_handlers') and len(args) >= 3:
+                    nm, hm = interp.deref_all(args[1]), interp.deref_all(args[2])
+                    table_calls.append(('add', nm, sorted(hm[1].items) if hm and hm[0] == 'map' else hm))
+                    return UNIT
+                if name.endswith('::ServerState::remove_handlers') and len(args) >= 2:
+                    table_calls.append(('remove', interp.deref_all(args[1]), None))
+                    return UNIT
+                return key_hook(interp, name, args, t, body)
+            it3 = Interp(facts, Order({}), opaque_call=srv_hook)
+            it3.unknown_call = actor_abs.lenient_unknown
+            it3.opaque_fields = True
+            it3.run_body(srv[0], [('ref', Cell(('opaque', 'server'))), ('opaque', 'service')])
+            it3.run_body(rms[0], [('ref', Cell(('opaque', 'server'))), ('ref', Cell(('key', 'svc')))])
     except (Unmodelled, absint.NeedChoice, absint.PanicPath, IndexError, TypeError, KeyError, AttributeError) as e:
         return _fallback(ctx, rule, e)
     want = 'H(U(svc,path))'
@@ -257,6 +279,16 @@ def check_keys(ctx, facts, rule):
            'a handler for (service svc, message path) ends up in the handler map under hash(to_uri_path(svc, path))' if ok1 else
            'a handler for (service svc, message path) ends up in the handler map under %s, expected %s: the server looks a request up under hash(request path), '
            'so the handler is never found (or another message\'s is)' % (keys, want))
+    if table_calls:
+        adds = [c for c in table_calls if c[0] == 'add']
+        rmv = [c for c in table_calls if c[0] == 'remove']
+        ok3 = len(adds) == 1 and adds[0][1] == ('key', 'svc') and adds[0][2] == [want] and len(rmv) == 1 and rmv[0][1] == ('key', 'svc')
+        ctx.ob(rule, 'service-table-name', ok3, '%s:%s' % (srv[0].file, srv[0].line),
+               'add_service files the service\'s keys under service_name(), the name remove_service(service_name()) looks them up by' if ok3 else
+               'add_service files the keys %s under %s and remove_service(svc) removes under %s — expected the keys [%s] under service_name() on both sides: a service '
+               'whose service_name() differs from that name can never be removed (its handlers keep serving)' % (
+                   adds[0][2] if adds else '?', (adds[0][1][1] if adds and adds[0][1] and adds[0][1][0] == 'key' else adds[0][1] if adds else 'nothing'),
+                   (rmv[0][1][1] if rmv and rmv[0][1] and rmv[0][1][0] == 'key' else rmv[0][1] if rmv else 'nothing'), want))
     ok2 = u is not None and u[0] == 'key' and u[1] == 'U(svc,path)'
     ctx.ob(rule, 'client-uri', ok2, '%s:%s' % (mm[0].file, mm[0].line),
            'the client addresses a message as to_uri_path(service_name, path)' if ok2 else
